@@ -103,6 +103,22 @@ def make_doubles():
     class IOD(Mixin, BaseIOPort):
         pass
 
+    class OutSendD(Mixin, BaseOutput):
+        # overrides send() instead of _send(), like mido.backends.rtmidi.Output
+        _locking = False
+
+        def send(self, msg):
+            import mido
+            if not isinstance(msg, mido.Message):
+                raise TypeError('argument to send() must be a Message')
+            if self.closed:
+                raise ValueError('send() called on closed port')
+            self.world.log.append((self.who, 'send', msg.copy()))
+
+        def _send(self, msg):
+            pass                    # the inherited no-op: this class does its work in send()
+
+    make_doubles.OutSendD = OutSendD
     return InD, OutD, IOD
 
 
@@ -171,6 +187,8 @@ def replay_history(kind, autoreset, script, hist, fclosed, fq, flog):
             port = InD('dev', world=world, who='dev')
         elif kind == 'out':
             port = OutD('dev', world=world, who='dev', autoreset=autoreset)
+        elif kind == 'outs':
+            port = make_doubles.OutSendD('dev', world=world, who='dev', autoreset=autoreset)
         elif kind == 'echo':
             port = mp.EchoPort()
         elif kind == 'ioport':
@@ -238,7 +256,7 @@ def replay_history(kind, autoreset, script, hist, fclosed, fq, flog):
                         'step %d: %s polled the device %d times, expected %d' % (n, op, dp, h['polls']))
         if bool(port.closed) != fclosed:
             return 'closed-flag', 'closed=%r expected %r' % (port.closed, fclosed)
-        rq = [ident(m, kind) for m in list(port._messages)] if kind != 'out' else []
+        rq = [ident(m, kind) for m in list(port._messages)] if kind not in ('out', 'outs') else []
         if rq != fq:
             return 'final-queue', 'queue %r expected %r' % (rq, fq)
         if kind != 'echo':
@@ -290,6 +308,9 @@ def worker(lines):
 
 def replay(case):
     row = case['row']
+    if row[0] == 'close_unblocks':
+        r = check_close_unblocks(*row[1:])
+        return r and '%s: %s' % r
     if row[0] == 'socket':
         from . import c18
         r = c18.replay_link(*row[1:])
@@ -302,13 +323,30 @@ def replay(case):
     return r and '%s: %s' % r
 
 
+def check_close_unblocks(kind, rseed, policy):
+    """One thread waits in a blocking receive() on an idle port, another calls
+    close(): close() must return and the receive must end (by raising)."""
+    import random
+    from .. import portrun
+    prog = [[{'op': 'recv', 'm': 0, 'lane': 0}], [{'op': 'close', 'm': 0, 'lane': 0}]]
+    run = portrun.run_program(kind, [], prog, rng=random.Random(rseed), policy=policy, budget=300)
+    r1, r2 = run['results'].get(1), run['results'].get(2)
+    if run['hung'] or r2 is None or r2[0]['k'] != 'ok':
+        return ('close-blocked-by-waiting-receiver',
+                'close() from another thread did not complete while a receive() was waiting (results %r, never finished: %r)' % (
+                    run['results'], run['hung']))
+    if r1 is None or r1[0]['k'] not in ('raise:OSError', 'raise:ValueError'):
+        return 'receive-not-ended-by-close', 'the waiting receive() ended with %r' % (r1,)
+    return None
+
+
 def run(ctx):
     thorough = ctx.tier == 'thorough'
     if thorough:
-        plan = [('io', True, 3, 4), ('io', False, 3, 4), ('in', False, 3, 4), ('out', True, 0, 4),
+        plan = [('io', True, 3, 4), ('io', False, 3, 4), ('in', False, 3, 4), ('out', True, 0, 4), ('outs', True, 0, 4),
                 ('echo', False, 0, 5), ('ioport', True, 3, 4), ('ioport', False, 2, 4)]
     else:
-        plan = [('io', True, 3, 3), ('io', False, 2, 3), ('in', False, 2, 3), ('out', True, 0, 3),
+        plan = [('io', True, 3, 3), ('io', False, 2, 3), ('in', False, 2, 3), ('out', True, 0, 3), ('outs', True, 0, 3),
                 ('echo', False, 0, 4), ('ioport', True, 2, 3)]
     pr = core.ParallelReplay(ctx, worker, batch_size=500)
     for kind, ar, ms, mc in plan:
@@ -322,6 +360,16 @@ def run(ctx):
         pass
     n = pr.finish()
     ctx.note('histories', n)
+    # close() while another thread waits in receive() (deterministic scheduler, seeded schedules)
+    import random as _random
+    rng = _random.Random(ctx.seed + 11)
+    for k in range(60 if thorough else 16):
+        kind = ['device', 'echo', 'ioport'][k % 3]
+        rseed, policy = rng.randrange(1 << 30), ['random', 'pct', 'first'][k % 3]
+        r = check_close_unblocks(kind, rseed, policy)
+        ctx.replayed += 1
+        if r:
+            ctx.violation('lifecycle/%s/%s' % (r[0], kind), {'row': ['close_unblocks', kind, rseed, policy]}, r[1])
     # a real device that closes itself: SocketPort on a socketpair (the peer
     # disconnects before / between / after the messages); the connection must
     # be released exactly once
